@@ -18,7 +18,7 @@ func init() {
 func init() {
 	props["C48"] = propSpec{
 		Engine: "crashsim", Level: "fault_enumeration",
-		QuickS: 40, ThoroughS: 900, DetSamples: 6, DetSamplesT: 40, Exhaustive: true,
+		QuickS: 40, ThoroughS: 900, DetSamples: 6, DetSamplesT: 40, Exhaustive: true, NeedsD2Bin: true,
 		Rule: "one run = one generated scenario (`d2 fmt` on 1-2 unformatted sources of 28 B - 300 KiB quick / 2 MiB thorough, corpus or generated, multi-byte runes; or a single-board `d2 in.d2 out.svg` with an existing short/long/empty/absent previous output, optionally in a not-yet-existing sub-directory, with --sketch/--theme variations). Per scenario the file-system operations of the uninterrupted command are recorded and EVERY one of them is a crash point (process killed just before it), plus 3 points inside every write (after 1, n/2, n-1 bytes) and one after the last operation: exhaustive per scenario. evaluations = crash-point executions; distinct = distinct (scenario, operation index, bytes written); a scenario is non-trivial when the command really rewrites the target.",
 		Assumptions: []string{
 			"'killed' = the process stops between two system calls or inside a write after k bytes; power loss / page-cache durability is not modelled (d2 issues no fsync and the property speaks of a killed process)",
@@ -26,7 +26,7 @@ func init() {
 			"the non-atomic fallback inside d2cli.Write only runs after the atomic path returned an I/O error and is outside the crash-point quantifier",
 			"file-system operations of the command are issued by one goroutine in a deterministic order (checked: every crash run must reproduce the recorded prefix, else exit 2)",
 		},
-		RealStub: map[string]string{"d2cli.Run (flag parsing, fmt, compile, dagre layout, render, Write)": "real, in-process", "os / syscall layer": "real, with fault points at the syscall wrappers (std overlay)", "kernel file system": "real (tmp sandbox per scenario)", "process death": "simulated by crash-freeze; cross-checked against real SIGKILL under strace in the thorough tier"},
+		RealStub: map[string]string{"d2cli.Run (flag parsing, fmt, compile, dagre layout, render, Write)": "real, in-process", "os / syscall layer": "real, with fault points at the syscall wrappers (std overlay)", "kernel file system": "real (tmp sandbox per scenario)", "process death": "simulated by crash-freeze; for one scenario per worker (six in the thorough tier) cross-validated against the real d2 binary: its strace'd mutating system calls must equal the recorded operations, and a real SIGKILL injected by strace on entry of each of them must leave what crash-freeze left"},
 	}
 }
 
@@ -48,13 +48,13 @@ func init() {
 var watchRealStub = map[string]string{
 	"d2cli.Run --watch (flag parsing, watcher, watchLoop, compileLoop, compile, render, Write, broadcast, handleWatch, writeLoop, close)": "real",
 	"net/http server, xhttp.Serve, coder/websocket (server and client side)":                                                              "real, over net.Pipe",
-	"layout engine":                       "stub plugin 'simstub' by default, real dagre in ~8% of runs",
-	"fsnotify":                            "stub module (simulated inotify: per-inode watches, queueing, auto-removal on delete/rename)",
+	"layout engine": "stub plugin 'simstub' by default, real dagre in ~8% of runs",
+	"fsnotify":      "stub module (simulated inotify: per-inode watches, queueing, auto-removal on delete/rename)",
 	"TCP listener / browsers / editor / operator": "simulated actors driven by the tape",
-	"kernel file system":                  "real (tmp sandbox); scheduling points when the compiler opens sources",
-	"clock and timers":                    "synctest fake clock; jumps stop early when a goroutine reaches a park point",
-	"goroutine scheduling":                "simulator: 21 park points in watch.go + every actor step; one release per decision",
-	"map iteration / select order":        "runtime seam, salted per run",
+	"kernel file system":                          "real (tmp sandbox); scheduling points when the compiler opens sources",
+	"clock and timers":                            "synctest fake clock; jumps stop early when a goroutine reaches a park point",
+	"goroutine scheduling":                        "simulator: 21 park points in watch.go + every actor step; one release per decision",
+	"map iteration / select order":                "runtime seam, salted per run",
 }
 
 func init() {
@@ -84,13 +84,13 @@ func init() {
 }
 
 var pipeRealStub = map[string]string{
-	"d2parser, d2compiler, d2ir, d2graph, d2exporter":                               "real",
+	"d2parser, d2compiler, d2ir, d2graph, d2exporter":                              "real",
 	"d2lib.Compile, d2layouts (nested/grid/sequence/near), dagre and ELK via goja": "real (C25)",
-	"d2svg, d2sketch, d2fonts, textmeasure":                                         "real (C25)",
-	"import file system":      "in-memory fs.FS whose Open is a scheduling point",
-	"caller tasks":            "goroutines released one at a time by the simulator at stage boundaries (start, import, compile, layout per nested graph, render per board)",
-	"map iteration / select":  "runtime seam: a function of the tape, re-derived at every release",
-	"reference":               "separate OS process, different seed, reversed order, no neighbours",
+	"d2svg, d2sketch, d2fonts, textmeasure":                                        "real (C25)",
+	"import file system":                                                           "in-memory fs.FS whose Open is a scheduling point",
+	"caller tasks":                                                                 "goroutines released one at a time by the simulator at stage boundaries (start, import, compile, layout per nested graph, render per board)",
+	"map iteration / select":                                                       "runtime seam: a function of the tape, re-derived at every release",
+	"reference":                                                                    "separate OS process, different seed, reversed order, no neighbours",
 }
 
 func init() {
